@@ -10,6 +10,7 @@ REG = {
     "C03": ("vf.checks.ode_props", "C03"), "C04": ("vf.checks.ode_props", "C04"),
     "C19": ("vf.checks.c19", "C19"),
     "C15": ("vf.checks.chx_props", "C15"),
+    "C16": ("vf.checks.c16", "C16"),
     "C05": ("vf.checks.rates_props", "C05"), "C06": ("vf.checks.rates_props", "C06"),
 }
 
